@@ -393,6 +393,116 @@ fn random_op(r: &mut Rng) -> Op {
     }
 }
 
+/// Free-running part: client sessions keep writing their own keys while the snapshot action (what the timer thread runs)
+/// works on the same database; then everything stops, one more incremental snapshot completes, and the node restarts.
+/// Judged: (1) after the writers stopped, memory holds every writer's last acknowledged value (a snapshot must not roll a
+/// racing write back); (2) the restart restores the image of that last quiescent snapshot.
+pub fn snapshot_race(v: &Verdicts, rounds: usize) -> (u64, u64) {
+    use std::sync::atomic::{AtomicBool, Ordering};
+    let (mut done, mut overlapped) = (0u64, 0u64);
+    for r in 0..rounds {
+        let dir = fresh_dir("c06-race");
+        let node = Run::start_node(&dir, false);
+        let dbs = node.dbs.clone();
+        let mut adm = Session::new();
+        adm.call(&dbs, "auth admin pwd");
+        adm.call(&dbs, "create-db one tok-one none");
+        adm.call(&dbs, "use-db one tok-one");
+        const WRITERS: usize = 2;
+        const KEYS: usize = 150;
+        for w in 0..WRITERS {
+            for i in 0..KEYS {
+                adm.call(&dbs, &format!("set w{}k{} init", w, i));
+            }
+        }
+        adm.call(&dbs, "snapshot false one");
+        nundb::disk_ops::verif_declutter(&dbs);
+        let stop = AtomicBool::new(false);
+        let snaps = std::sync::atomic::AtomicU64::new(0);
+        let mut last: Vec<BTreeMap<String, String>> = vec![];
+        std::thread::scope(|sc| {
+            let hs: Vec<_> = (0..WRITERS)
+                .map(|w| {
+                    let dbs = dbs.clone();
+                    let snaps = &snaps;
+                    sc.spawn(move || {
+                        let mut s = Session::new();
+                        s.call(&dbs, "use-db one tok-one");
+                        let mut mine = BTreeMap::new();
+                        let mut pass = 0;
+                        // keep writing until the snapshotter has completed a few snapshots while we were at it
+                        while snaps.load(Ordering::Acquire) < 4 && pass < 400 {
+                            for i in 0..KEYS {
+                                let (k, val) = (format!("w{}k{}", w, i), format!("r{}p{}", r, pass));
+                                if !s.call(&dbs, &format!("set {} {}", k, val)).is_error() {
+                                    mine.insert(k, val);
+                                }
+                            }
+                            pass += 1;
+                        }
+                        s.disconnect(&dbs);
+                        mine
+                    })
+                })
+                .collect();
+            let (dbs2, dir2, stop2, snaps2) = (dbs.clone(), dir.clone(), &stop, &snaps);
+            let snapper = sc.spawn(move || {
+                nundb::verif::set_dir(Some(dir2));
+                let mut a = Session::new();
+                a.call(&dbs2, "auth admin pwd");
+                while !stop2.load(Ordering::Acquire) {
+                    a.call(&dbs2, "snapshot false one");
+                    nundb::disk_ops::verif_declutter(&dbs2);
+                    snaps2.fetch_add(1, Ordering::AcqRel);
+                }
+            });
+            for h in hs {
+                last.push(h.join().unwrap_or_default());
+            }
+            stop.store(true, Ordering::Release);
+            let _ = snapper.join();
+        });
+        done += 1;
+        if snaps.load(Ordering::Acquire) >= 4 {
+            overlapped += 1;
+        }
+        // (1) nothing acknowledged was rolled back
+        let mem = image_of(&node, "one").map(|i| i.keys).unwrap_or_default();
+        let mut lost = vec![];
+        for m in &last {
+            for (k, val) in m {
+                if mem.get(k).map(|x| &x.0) != Some(val) {
+                    lost.push(json!([k, val, mem.get(k)]));
+                }
+            }
+        }
+        if !lost.is_empty() {
+            v.report(json!({"check": "snapshot-race", "problem": "acknowledged-write-rolled-back-in-memory-by-a-concurrent-snapshot"}), json!({"round": r, "keys_affected": lost.len(), "first_key_last_acknowledged_value_memory": lost.iter().take(5).collect::<Vec<_>>()}));
+            continue;
+        }
+        // (2) one more snapshot with nobody writing, then the restart
+        adm.call(&dbs, "snapshot false one");
+        nundb::disk_ops::verif_declutter(&dbs);
+        let want = image_of(&node, "one");
+        drop(node);
+        if let Err(why) = load_probe(&dir) {
+            v.report(json!({"check": "restart-fails", "how": why.split(':').next().unwrap_or("").to_string(), "after": "snapshots-racing-writers"}), json!({"round": r, "msg": why}));
+            continue;
+        }
+        let node2 = Run::start_node(&dir, false);
+        let got = image_of(&node2, "one");
+        if got != want {
+            let (w, g) = (want.map(|i| i.keys).unwrap_or_default(), got.map(|i| i.keys).unwrap_or_default());
+            let differing: Vec<serde_json::Value> = w.iter().filter(|(k, val)| g.get(*k) != Some(*val)).take(5).map(|(k, val)| json!([k, val, g.get(k)])).collect();
+            let n_diff = w.iter().filter(|(k, val)| g.get(*k) != Some(*val)).count() + g.keys().filter(|k| !w.contains_key(*k)).count();
+            v.report(json!({"check": "restore", "kind": "dataset-differs", "detail": "after-snapshots-racing-writers"}), json!({"round": r, "keys_differing": n_diff, "key_snapshotted_restored": differing}));
+        }
+        drop(node2);
+        let _ = std::fs::remove_dir_all(&dir);
+    }
+    (done, overlapped)
+}
+
 pub fn run(tier: &str) -> i32 {
     quiet_panics();
     let v = Verdicts::load("C06");
@@ -456,6 +566,8 @@ pub fn run(tier: &str) -> i32 {
         }
     });
     let s = stats.into_inner().unwrap();
+    let (race_rounds, race_overlapped) = snapshot_race(&v, if tier == "thorough" { 300 } else { 25 });
+    ev.set("free_running_snapshot_race", json!({"rounds": race_rounds, "rounds_with_at_least_4_snapshots_completed_while_the_writers_ran": race_overlapped}));
     ev.evaluations = s.histories;
     ev.distinct_nontrivial = s.nontrivial.len() as u64;
     ev.rule = format!("histories = all sequences of length {} over a 10-step alphabet that contain a snapshot request ({} systematic) + {} seeded random sequences of length 5-40 over 2 databases x 3 keys x 6 value classes (empty, 1 byte, 7 bytes, 300+ bytes, multi-byte UTF-8, small integers), half of them with the real replication loop/oplog running; every history ends with declutter + restart + comparison; non-trivial = distinct history that completed a snapshot and issued at least one write/remove/increment on a key already persisted (status Ok/Updated/Deleted)", depth, systematic, n_random);
